@@ -142,6 +142,8 @@ func runC02(c *Ctx, r *Report) {
 	c.checkInfixPrinter(r)
 	r.Rule("C02.R11", "one statement stands for its block only when it is alone: in packages ast and object every constant-index access k into the Statements slice of an ast.Statements lies on the edge where len of that slice == k+1")
 	c.checkSingleStatementAccess(r, "C02.R11")
+	r.Rule("C03.R8", "(shared with C03) the `(` and `[` whitespace guards of parseExpression use the same predicates: what the printer writes between two statements trips both")
+	c.checkSiblingWhitespaceGuards(r, "C03.R8")
 	r.Rule("C02.R12", "string literals are printed in the form the lexer decodes: in StringLiteral.PrettyPrint the token text reaches the output only as the result of strconv.Quote")
 	c.checkStringsPrintedQuoted(r, "C02.R12")
 	r.Rule("C02.R1", "visitor field coverage: every child-carrying field of every syntax-node type (nodes, node lists, blocks, names, maps of nodes, the previous token of a postfix) is read by that type's PrettyPrint or the same-type helpers it calls")
